@@ -1,10 +1,286 @@
 /-
   Model module `TraceStack` (driver op `tstack`). Import-free apart from RsjModel.* modules.
+
+  Depth accounting of the evaluator (`rsjsonnet-lang/src/program/eval/mod.rs`): the
+  `state_stack` restricted to what matters for the frame counter `stack_trace_len`.
+
+    push_trace_item   : push `State::TraceItem`,        counter + 1          (`Act.P`)
+    delay_trace_item  : push `State::DelayedTraceItem`, counter - 1 (checked) (`Act.D`)
+    state_stack.push  : any other state, counter unchanged                     (`Act.O`)
+    run loop, pop     : `TraceItem` -> counter - 1 (checked); `DelayedTraceItem` -> counter + 1;
+                        any other state -> its handler runs (a finite sequence of the three pushes,
+                        possibly ending in `Err(report_error(..))`)
+    after every step  : `if self.stack_trace_len > self.program.max_stack` -> StackOverflow
+    get_stack_trace   : walk the state stack bottom-up; TraceItem -> push on the result,
+                        DelayedTraceItem -> `result.pop().unwrap()`
+    end of `eval`     : `assert_eq!(this.stack_trace_len, 0)`
+
+  The panic sites (`checked_sub(1).unwrap()`, `pop().unwrap()`, the final `assert_eq!`) are explicit
+  outcomes (`Panic`).  Also here: the little regular-expression language `Code` in which
+  `tools/extract_tracesites.py` describes the push/delay structure of every Rust function
+  (`RsjModel/TraceSites.lean`), and the executable bracketing criterion `lo`.
 -/
 import RsjModel.Util
 namespace Rsj.TraceStack
 
-/-- `tstack <args...>` : one canonical answer line, or `none` for a malformed request. -/
-def handle (_args : List String) : Option String := none
+/-- A state on `state_stack`, as far as depth accounting can see it. -/
+inductive Item
+  | trace      -- `State::TraceItem(_)`
+  | delayed    -- `State::DelayedTraceItem`
+  | other      -- every other `State::*`
+deriving Repr, DecidableEq
+
+/-- One push performed by a handler. -/
+inductive Act
+  | P   -- `push_trace_item(..)`
+  | D   -- `delay_trace_item()`
+  | O   -- `state_stack.push(<anything else>)`
+deriving Repr, DecidableEq
+
+/-- The three `unwrap`/`assert` sites of the accounting code. -/
+inductive Panic
+  | underflow     -- `dec_trace_len`: `self.stack_trace_len.checked_sub(1).unwrap()`
+  | traceUnwrap   -- `get_stack_trace`: `stack_trace.pop().unwrap()`
+  | assertLen     -- `eval`: `assert_eq!(this.stack_trace_len, 0)`
+deriving Repr, DecidableEq
+
+/-- `stack`: head = top of `state_stack`; `len` = `stack_trace_len`. -/
+structure St where
+  stack : List Item
+  len : Nat
+deriving Repr, DecidableEq
+
+/-- `dec_trace_len` on the bare counter. -/
+def decLen (n : Nat) : Except Panic Nat :=
+  match n with
+  | 0 => .error .underflow
+  | k + 1 => .ok k
+
+/-- One push (`push_trace_item` / `delay_trace_item` / plain push). -/
+def act (s : St) : Act → Except Panic St
+  | .P => .ok ⟨.trace :: s.stack, s.len + 1⟩
+  | .D =>
+    match decLen s.len with
+    | .ok n => .ok ⟨.delayed :: s.stack, n⟩
+    | .error p => .error p
+  | .O => .ok ⟨.other :: s.stack, s.len⟩
+
+/-- A handler body: pushes in order; stops at the first panic. -/
+def acts (s : St) : List Act → Except Panic St
+  | [] => .ok s
+  | a :: rest =>
+    match act s a with
+    | .ok s' => acts s' rest
+    | .error p => .error p
+
+/-- `self.state_stack.pop()` plus the counter update of the `TraceItem` / `DelayedTraceItem` arms.
+    `none`: the stack is empty (the `while let` loop ends). -/
+def popItem (s : St) : Option (Item × Except Panic St) :=
+  match s.stack with
+  | [] => none
+  | .trace :: r =>
+    some (.trace, match decLen s.len with
+                  | .ok n => .ok ⟨r, n⟩
+                  | .error p => .error p)
+  | .delayed :: r => some (.delayed, .ok ⟨r, s.len + 1⟩)
+  | .other :: r => some (.other, .ok ⟨r, s.len⟩)
+
+/-- `get_stack_trace` loop: `items` bottom-first, `i` = index of the next item, `acc` = the result
+    vector with its *last* element first.  The result lists the stack positions (from the bottom)
+    of the frames that are active. -/
+def traceWalk : List Item → Nat → List Nat → Except Panic (List Nat)
+  | [], _, acc => .ok acc.reverse
+  | .trace :: r, i, acc => traceWalk r (i + 1) (i :: acc)
+  | .delayed :: r, i, acc =>
+    match acc with
+    | [] => .error .traceUnwrap
+    | _ :: acc' => traceWalk r (i + 1) acc'
+  | .other :: r, i, acc => traceWalk r (i + 1) acc
+
+/-- `get_stack_trace` (`state_stack.iter()` runs bottom to top). -/
+def getStackTrace (s : St) : Except Panic (List Nat) :=
+  traceWalk s.stack.reverse 0 []
+
+/-! ### The machine -/
+
+/-- How one run ends. `σ` is the rest of the evaluator state (value stacks, heap, ...). -/
+inductive Outcome (σ : Type)
+  | done (h : σ)                       -- `run` returned `Ok(())` and the final `assert_eq!` passed
+  | stackOverflow (trace : List Nat)   -- `Err(report_error(StackOverflow))` from the limit check
+  | evalError (trace : List Nat)       -- a handler returned `Err(report_error(..))` (any other kind)
+  | panic (p : Panic)
+  | outOfFuel
+deriving Repr, DecidableEq
+
+/-- `report_error`: builds the stack trace first. -/
+def report {σ : Type} (s : St) (k : List Nat → Outcome σ) : Outcome σ :=
+  match getStackTrace s with
+  | .ok t => k t
+  | .error p => .panic p
+
+/-- Result of one iteration of the `while let` loop. -/
+inductive StepRes (σ : Type)
+  | next (h : σ) (s : St)
+  | halt (o : Outcome σ)
+deriving Repr, DecidableEq
+
+/-- One iteration: pop, handler, limit check.  `H h` is the behaviour of the handler of the popped
+    (non-trace) state in hidden state `h`: the pushes it performs, and the next hidden state, or
+    `none` when it returns `Err(report_error(..))` after those pushes.  Handlers never see `max`. -/
+def stepM {σ : Type} (H : σ → List Act × Option σ) (max : Nat) (h : σ) (s : St) : StepRes σ :=
+  match popItem s with
+  | none => .halt (if s.len = 0 then .done h else .panic .assertLen)
+  | some (_, .error p) => .halt (.panic p)
+  | some (.other, .ok s1) =>
+    match acts s1 (H h).1 with
+    | .error p => .halt (.panic p)
+    | .ok s2 =>
+      match (H h).2 with
+      | none => .halt (report s2 .evalError)
+      | some h' => if s2.len > max then .halt (report s2 .stackOverflow) else .next h' s2
+  | some (_, .ok s1) =>
+    if s1.len > max then .halt (report s1 .stackOverflow) else .next h s1
+
+/-- The run loop with explicit fuel. -/
+def run {σ : Type} (H : σ → List Act × Option σ) (max : Nat) : Nat → σ → St → Outcome σ
+  | 0, _, _ => .outOfFuel
+  | fuel + 1, h, s =>
+    match stepM H max h s with
+    | .halt o => o
+    | .next h' s' => run H max fuel h' s'
+
+/-! ### Counter semantics of a word of pushes, and the criterion on extracted code -/
+
+/-- The counter along a word of pushes, relative to a start value; `none` = underflow. -/
+def execA : List Act → Nat → Option Nat
+  | [], n => some n
+  | .P :: r, n => execA r (n + 1)
+  | .D :: r, n =>
+    match n with
+    | 0 => none
+    | k + 1 => execA r k
+  | .O :: r, n => execA r n
+
+/-- Push/delay structure of a Rust function body, as extracted from the source. -/
+inductive Code
+  | skip
+  | P | D | O
+  | seq (a b : Code)
+  | alt (a b : Code)      -- `if`/`else`, `match` arms, `let .. else`
+  | star (a : Code)       -- body of `for`/`while`/`loop`, or of a closure
+  | call (f : String)     -- call of another function of the table
+deriving Repr
+
+def Code.seqs : List Code → Code
+  | [] => .skip
+  | [a] => a
+  | a :: r => .seq a (Code.seqs r)
+
+def Code.alts : List Code → Code
+  | [] => .skip
+  | [a] => a
+  | a :: r => .alt a (Code.alts r)
+
+/-- **The bracketing criterion.**  `lo c b = some b'`: started with at least `b` unmatched
+    `push_trace_item`s of the current function invocation, no path through `c` performs a
+    `delay_trace_item` without such a push to match, and at least `b'` remain afterwards.
+    Both alternatives are followed; a loop/closure body must satisfy the criterion on its own
+    (from 0) and is credited with nothing; so must every called function (checked as its own
+    table entry), which is why `call` is neutral here. -/
+def lo : Code → Nat → Option Nat
+  | .skip, b => some b
+  | .P, b => some (b + 1)
+  | .D, b =>
+    match b with
+    | 0 => none
+    | k + 1 => some k
+  | .O, b => some b
+  | .seq a c, b =>
+    match lo a b with
+    | some b1 => lo c b1
+    | none => none
+  | .alt a c, b =>
+    match lo a b, lo c b with
+    | some x, some y => some (min x y)
+    | _, _ => none
+  | .star a, b =>
+    match lo a 0 with
+    | some _ => some b
+    | none => none
+  | .call _, b => some b
+
+/-- All entries of a table satisfy the criterion from 0. -/
+def tableOK (tbl : List (String × Code)) : Bool :=
+  tbl.all (fun e => (lo e.2 0).isSome)
+
+/-! ### Cycle of self-dependent thunks (tiny local model of the thunk protocol)
+
+  Thunk `i` (`i < k`) has the body "the variable bound to thunk `(i+1) % k`".
+  `DoThunk(i)`: `Done` is impossible here; `Pending` -> mark `InProgress`, evaluate the body:
+  `want_thunk_direct` pushes one trace frame (`TraceItem::Variable`) and `DoThunk(next)`, the
+  limit check runs after that step; `InProgress` -> `InfiniteRecursion`. -/
+
+inductive CycleOut
+  | infiniteRecursion
+  | stackOverflow
+  | outOfFuel
+deriving Repr, DecidableEq
+
+/-- `next`: which thunk the body of thunk `i` forces. `inProg`: thunks currently `InProgress`.
+    `len`: frame counter. -/
+def forceChain (next : Nat → Nat) (max : Nat) : Nat → Nat → List Nat → Nat → CycleOut
+  | 0, _, _, _ => .outOfFuel
+  | fuel + 1, i, inProg, len =>
+    if inProg.contains i then .infiniteRecursion
+    else if len + 1 > max then .stackOverflow
+    else forceChain next max fuel (next i) (i :: inProg) (len + 1)
+
+/-! ### Driver -/
+
+inductive Cmd | P | D | O | pop
+deriving Repr, DecidableEq
+
+def parseCmd : String → Option Cmd
+  | "P" => some .P | "D" => some .D | "O" => some .O | "pop" => some .pop | _ => none
+
+/-- Script semantics: pushes before the first `pop` are the initial pushes of `eval` (no check);
+    every `pop` starts a new step, and the limit check of the previous step runs just before it
+    (and once more at the end of the script).  `inStep`: a step is open. -/
+def runScript (max : Nat) : List Cmd → St → Bool → List String → List String
+  | [], s, inStep, out =>
+    (if inStep && s.len > max then "overflow" :: out else out).reverse
+  | c :: rest, s, inStep, out =>
+    if inStep && c = .pop && s.len > max then ("overflow" :: out).reverse
+    else
+      match c with
+      | .pop =>
+        match popItem s with
+        | none => ("empty" :: out).reverse
+        | some (_, .error _) => ("panic:underflow" :: out).reverse
+        | some (_, .ok s') => runScript max rest s' true (toString s'.len :: out)
+      | .P =>
+        match act s .P with
+        | .ok s' => runScript max rest s' inStep (toString s'.len :: out)
+        | .error _ => ("panic:underflow" :: out).reverse
+      | .D =>
+        match act s .D with
+        | .ok s' => runScript max rest s' inStep (toString s'.len :: out)
+        | .error _ => ("panic:underflow" :: out).reverse
+      | .O =>
+        match act s .O with
+        | .ok s' => runScript max rest s' inStep (toString s'.len :: out)
+        | .error _ => ("panic:underflow" :: out).reverse
+
+/-- `tstack <max> <action> <action> ...` (actions `P`, `D`, `O`, `pop`): the counter after each
+    action, comma separated; the answer ends early with `panic:underflow`, `overflow` (limit check
+    at the end of a step failed; nothing further runs) or `empty` (pop on the empty stack). -/
+def handle (args : List String) : Option String :=
+  match args with
+  | [] => none
+  | m :: cmds => do
+    let max ← m.toNat?
+    let cs ← cmds.mapM parseCmd
+    let out := runScript max cs ⟨[], 0⟩ false []
+    pure (if out.isEmpty then "-" else ",".intercalate out)
 
 end Rsj.TraceStack
